@@ -47,6 +47,7 @@ type input struct {
 	Include   []string `json:"include"`
 	Exclude   []string `json:"exclude"`
 	Labels    []L      `json:"labels,omitempty"`
+	Deps      []D      `json:"dependencies,omitempty"` // kind "tested": declared dependency edges between the targets
 	NeedTests bool     `json:"need_tests"`
 	Out       []L      `json:"out,omitempty"`
 	Want      []L      `json:"documented,omitempty"`
@@ -933,12 +934,27 @@ func main() {
 			"expressions and requested labels; parseMaybeRelativeBuildLabel (through BuildLabel.UnmarshalFlag), TryParseBuildLabel with a current package, filepath.Join and the PackageMap keys " +
 			"are compared with the model on structured + edited strings; (5) end to end: `plz query alltargets` with --include/--exclude over a generated repository with a subrepo, from the " +
 			"root and from sub-directories, compared with the documented rule. " +
+			"(6) round-2 follow-up: graphs with DEPENDENCY EDGES between the candidates and exclude build PATTERNS aimed at members of the requested packages: AddOriginalTarget for " +
+			"every requested :all / named label on a real BuildState, then IsOriginalTarget of every target; and a `plz test` run on the real state's queues driven as plz.Run drives " +
+			"them (ActivateTarget, queueing of dependencies, built -> NeedTests && IsTest && IsOriginalTarget -> QueueTestTarget): the set of tests run; end to end `plz test` over a " +
+			"generated repository where an included test depends on a pattern-excluded test. " +
 			"distinct = distinct inputs; non-trivial = at least one include or exclude argument and at least one target both selected and one rejected (expansions), " +
 			"or a wildcard/compound group (single targets)")
 
 		var rep input
 		if c.ReadReplay(&rep) && rep.Kind == "e2e" {
 			endToEnd(c)
+			return
+		}
+		if c.ReadReplay(&rep) && (rep.Kind == "isorig" || rep.Kind == "tested") {
+			if usable(rep.Cur, rep.Exclude) {
+				rep.Out, rep.Want = nil, nil
+				if rep.Kind == "isorig" {
+					runIsOrig(c, rep)
+				} else {
+					runTested(c, rep)
+				}
+			}
 			return
 		}
 		if c.ReadReplay(&rep) && (rep.Kind == "expand" || rep.Kind == "originals") {
@@ -1395,5 +1411,8 @@ func main() {
 			c.HistN("include_args", len(in.Include))
 		}
 
+		// ---- 8. original targets: IsOriginalTarget of every target, and the tests a `plz test` run executes over graphs
+		// with dependency edges (round-2 follow-up, orig.go)
+		originalTargets(c)
 	})
 }
